@@ -26,7 +26,7 @@ RULE = ("Random tabular configurations: 50-160 rows, business or calendar days, 
 ASSUMPTIONS = ["env.X is by definition the published transformed table; tables with gaps longer than the warm-up horizon "
                "(3 + 2*window days) are not 'daily or finer' and are not generated",
                "a configuration with too little data may be refused at construction (counted as config-rejected)"]
-REQUIRED = ["C18:observation", "C18:bounds", "C18:step-date", "C18:quotes", "C18:rate", "C18:full-window", "C18:published-table"]
+REQUIRED = ["C18:kept-observation-unchanged", "C18:observation", "C18:bounds", "C18:step-date", "C18:quotes", "C18:rate", "C18:full-window", "C18:published-table"]
 REQUIRED_CATS = ["decision-refused-then-resubmitted", "latency-with-intraday-feature-rows", "earlier-fold-after-later-fold", "last-date-is-a-holiday", "fold-after-holiday-cluster", "rate-off-price-dates", "window>1", "stride", "late-fold", "calendar:LSE", "calendar:NYSE", "transformer:None", "transformer:z-score",
                  "transformer:yeo-johnson"]
 TECHNIQUE = "runtime monitoring: observations, quotes and step dates of real episodes compared at every call with the tables the environment was given"
@@ -177,6 +177,7 @@ def case(ctx, i, tier):
     last = None
     first = True
     first_now = None
+    kept_obs = []
     while True:
         now = env.now()
         if first_now is None:
@@ -193,6 +194,12 @@ def case(ctx, i, tier):
             exp = exp[::-stride][::-1]
         ok = ctx.check("C18:observation", obs.shape == env.observation_space.shape and obs.shape == exp.shape and
                        np.array_equal(obs, exp), now=now, shape=obs.shape, want_shape=exp.shape, window=window, stride=stride)
+        # an observation the caller KEPT (a rollout buffer, obs_prev of a transition) still says what it said when it was
+        # served, after later steps
+        for now_k, obs_k, exp_k in kept_obs:
+            ok &= ctx.check("C18:kept-observation-unchanged", np.array_equal(obs_k, exp_k), served_at=now_k, looked_at=now,
+                            window=window, stride=stride)
+        kept_obs = (kept_obs + [(now, obs, np.array(exp, copy=True))])[-3:]
         ok &= ctx.check("C18:bounds", float(np.abs(obs).max()) <= 5 and obs in env.observation_space, max=float(np.abs(obs).max()))
         ok &= ctx.check("C18:step-date", now in env.Y.index and now in Yin.index and pd.Timestamp(now) not in H and
                         (last is None or now > last), now=now, last=last)
